@@ -869,6 +869,22 @@ func (d *drv) concurrent(sc vh.Scenario, rec *vh.Rec, rng interface{ Intn(int) i
 						defer cancel()
 						_, err := sk.GetProofs(ctx, engine.SFMining, pocutil.Hash{}, false)
 						return err
+					case "Reader":
+						var fl engine.WorkSpaceStateFlags
+						for _, f := range vh.StrSeq(st["flags"]) {
+							fl |= flagNames[f]
+						}
+						ctx, cancel := context.WithTimeout(context.Background(), time.Duration(st.Int("ms"))*time.Millisecond)
+						defer cancel()
+						rd, err := sk.GetProofsReader(ctx, fl, pocutil.Hash{}, false)
+						if err != nil {
+							return nil // "not running" is an answer
+						}
+						for {
+							if _, e := rd.Read(); e != nil {
+								return nil
+							}
+						}
 					}
 					return nil
 				})
